@@ -17,9 +17,9 @@ PLAN = {
     "C19": ["K19b", "L19"],
     "C11": ["K11a", "K11b", "L11"],
     "C12": ["K12a", "K12b", "K12d", "K12e"],
-    "C13": ["K12a", "K13a", "K13b", "K14b"],
+    "C13": ["K12a", "K13a", "K13b", "K13c", "K14b"],
     "C14": ["K14a", "K14b"],
-    "C15": ["K12e", "K14b", "L15", "L15b"],
+    "C15": ["K04f", "K12e", "K14b", "L15", "L15b"],
     "C16": ["K04f", "K16"],
-    "C20": ["K20a", "K20b", "L15b"],
+    "C20": ["K20a", "K20b", "L15b", "L20"],
 }
